@@ -22,7 +22,7 @@ from .. import fclass
 from ..order import NotParametric
 from ..ivl import IvlModel
 from ..sqrtdom import check_paths as check_sqrt_domain
-from ..meanci import ConfModel, KINDS, F0, F1, F2, NORMAL, crit, unwrap_ok, SubstPath, nonneg_crit
+from ..meanci import ConfModel, KINDS, F0, F1, F2, NORMAL, crit, unwrap_ok, SubstPath, nonneg_crit, undefined_quotients
 from ..nf import Ctx as NF, NotReal
 from ..realmode import Domain, prune, quantile_hook
 from ..statsmodel import by_ref
@@ -219,6 +219,10 @@ def producer(chk, facts, nf, im, cm, fn, method, label, sfx, subst=None, make_ar
                         probs.append('error %s on the accepted domain' % ev)
                 if p2.is_panic():
                     probs.append('panic on the accepted domain: %s' % (p2.outcome,))
+        if not probs and oks and lohi is not None:
+            undef = undefined_quotients(dom, list(lohi), strict=False)
+            chk.ob(key + ':div-domain', 'E4 domain of definition', '%s(%s): every quotient the code forms on the accepted path has a denominator that is non-zero on the domain (the rational-function identity is an identity of values only there)' % (label, kname),
+                   not undef, '' if not undef else 'the code divides by %s, which can vanish on the domain' % undef[0], where)
         chk.ob(key + ':formula', 'E4', '%s(%s): bounds are the %s formula of the statement with the %s kind table' % (label, kname, method, kname),
                not probs, '; '.join(probs[:3]), where,
                sample={'fn': label, 'kind': kname, 'centre': T.show(centre)[:120], 'span': T.show(span)[:160]})
